@@ -381,4 +381,34 @@ theorem labelHistoryFrom_sorted (c : Cfg L) (l : L) (p h : List (Call L))
         exact hs.1 k' hk'
       · simp [hr] at ha
 
+/-- the multi-label refinement (property theorem `C15_timer_refines_stopwatch`) -/
+theorem timer_refines_stopwatch (c : Cfg L) (h : List (Call L))
+    (now : Nat) (hm : Monotone h now) (label : Option L) (total : Bool) :
+    ((Timer.init c.init c.dflt c.all).run h).elapsed label total now =
+      specElapsed c h label total now := by
+  have R : Represents c h ((Timer.init c.init c.dflt c.all).run h) := by
+    simpa using represents_run [] h _ (represents_init c)
+  have hread : ∀ l, known c h l = true →
+      elapsedEntry (machFold (labelHistory c h l)) total now =
+        if total then specTotal (labelHistory c h l) now else specCurrent (labelHistory c h l) now := by
+    intro l _
+    apply elapsedEntry_machFold
+    · exact labelHistoryFrom_sorted c l [] h hm.1
+    · intro ev hev
+      obtain ⟨k, hk, ht⟩ := labelHistoryFrom_times c l [] h ev hev
+      rw [← ht]; exact hm.2 k hk
+  cases label with
+  | none =>
+    simp only [Timer.elapsed, Timer.elapsedDefault, specElapsed, Option.getD_none, R.dflt,
+      R.get c.dflt, Option.isNone_none, if_true]
+    cases hk : known c h c.dflt with
+    | true => simp [hread c.dflt hk]
+    | false => simp
+  | some l =>
+    simp only [Timer.elapsed, specElapsed, Option.getD_some, R.get l, Option.isNone_some]
+    cases hk : known c h l with
+    | true => simp [hread l hk]
+    | false => simp
+
+
 end Scico.Driver
